@@ -66,18 +66,32 @@ fn loc_of(addr: usize) -> &'static str {
     }
 }
 
+/// Which records the writer publishes.  0: cell i of record k = 1000 k + i (as-of instants increase
+/// from one publication to the next).  1 (`shmd`): the same, except that the as-of seconds (cell 0) run
+/// DOWN, BIG - 1000 k: the protocol must not depend on what the records say.  Every cell value that
+/// leaves the engine goes through `cell_val`, which maps cell 0 back to 1000 k, so that the observations
+/// are those of family 0 and are compared with the same model run.
+pub static FAMILY: std::sync::atomic::AtomicU64 = std::sync::atomic::AtomicU64::new(0);
+const BIG: i64 = 1_000_000_000_000;
+
 fn cell_val(idx: usize, bytes: [u8; 8]) -> i64 {
     if idx == 6 {
         u32::from_ne_bytes([bytes[0], bytes[1], bytes[2], bytes[3]]) as i64
     } else {
-        i64::from_ne_bytes(bytes)
+        let v = i64::from_ne_bytes(bytes);
+        if idx == 0 && v != 0 && FAMILY.load(std::sync::atomic::Ordering::SeqCst) == 1 {
+            BIG - v
+        } else {
+            v
+        }
     }
 }
 
 pub fn record(k: u64) -> ClockErrorBound {
     let b = 1000 * k as i64;
+    let sec = if FAMILY.load(std::sync::atomic::Ordering::SeqCst) == 1 && k != 0 { BIG - b } else { b };
     ClockErrorBound::new(
-        libc::timespec { tv_sec: b, tv_nsec: b + 1 },
+        libc::timespec { tv_sec: sec, tv_nsec: b + 1 },
         libc::timespec { tv_sec: b + 2, tv_nsec: b + 3 },
         b + 4,
         (b + 5) as u32,
